@@ -390,6 +390,20 @@ def shard(ctx):
             ctx.nontrivial_case(["same-country pair", a, b])
         except Violation as v:
             ctx.record_violation(v)
+    # ... and EVERY ordered pair of pool items back to back: one Eulerian circuit over the pool (every item follows every other item
+    # exactly once; 21 x 20 transitions), cut into one segment per shard.  State that one particular run leaves behind for one particular
+    # other run (a hand-written exception for one country that sticks in a class attribute, say) needs exactly such a pair.
+    circuit = euler_walk(list(range(len(POOL))))
+    per = -(-(len(circuit) - 1) // ctx.nshards)
+    seg = circuit[ctx.shard * per: ctx.shard * per + per + 1]
+    if len(seg) >= 2:
+        ctx.count()
+        ctx.event("pool_circuit_segment")
+        try:
+            replay(dict(steps=[["run", i] for i in seg]), ctx, count=False)
+            ctx.nontrivial_case(["pool circuit segment", seg])
+        except Violation as v:
+            ctx.record_violation(v)
     # ... and with a DRAWN column of the input table overridden in the second run (numeric columns only; seeded by VERIF_SEED)
     t = model.country_table()
     cols = [c for c in t.columns if c not in ("iso3", "country") and np.issubdtype(t[c].dtype, np.number)]
